@@ -173,6 +173,16 @@ where
             ));
         }
 
+        // The extended domain (large enough for the quotient polynomial) must also fit
+        // in the 2-adic subgroup, see `EvaluationDomain::new`.
+        let extension = (cs.degree() as u64 - 1).next_power_of_two().trailing_zeros();
+        if k as u32 + extension > F::S {
+            return Err(io::Error::new(
+                io::ErrorKind::InvalidData,
+                format!("circuit size value (k): {} exceeds maxium: {}", k, F::S - extension),
+            ));
+        }
+
         let domain = EvaluationDomain::new(cs.degree() as u32, k.into());
 
         let mut num_fixed_columns = [0u8; 4];
